@@ -347,6 +347,10 @@ def enc_choice(mod, rt, v, out, ch=ref_ber.CANON):
         put_constrained(out, [m.name for m in root].index(name), 0, len(root) - 1)
         enc(mod, sel.type, av, out, ch)
     else:
+        if [m.name for m in choice_order(mod, rt, adds)] != [m.name for m in adds]:
+            # X.680 requires the tags of extension addition alternatives to ascend in canonical order, so that
+            # definition order and canonical order coincide; a type that breaks the rule has no defined index
+            raise RefExcluded("CHOICE additions not in canonical tag order (outside X.680)")
         put_normally_small(out, [m.name for m in adds].index(name))
         inner = Bits()
         enc(mod, sel.type, av, inner, ch)
